@@ -6135,6 +6135,17 @@ impl BytecodeVM {
 
                 let prop_key = interp.property_key_from_value(key);
 
+                // Assigning to the length of an array: the value must be a valid array length
+                if let JsValue::String(k) = key
+                    && k.as_str() == "length"
+                    && matches!(obj_ref.borrow().exotic, ExoticObject::Array { .. })
+                {
+                    let n = interp.coerce_to_number(&value)?;
+                    if !(n >= 0.0 && n <= u32::MAX as f64 && math::fract(n) == 0.0) {
+                        return Err(JsError::range_error("Invalid array length"));
+                    }
+                }
+
                 // Check if object is frozen/sealed or property is non-writable
                 // First, check for accessor or non-writable property (including prototype chain)
                 let setter_to_call = {
